@@ -408,7 +408,16 @@ func checkCache(h *History, vs []*opView) {
 			// a hit that is cut (TC) although the first relay, complete, was no
 			// larger than what this client's transport carries: the stored copy
 			// itself has lost records
-			if m.Has(refdns.BitTC) && !fr.m.Has(refdns.BitTC) && !sr.tc && fr.size+64 < sizeLimit(v) {
+			// (the proxy cuts where the bytes written so far plus the next
+			// record's uncompressed length pass the limit; so a limit of the
+			// first relay's size plus its largest record cannot cut anything)
+			maxRec := 0
+			for _, sec := range [][]refdns.RR{fr.m.An, fr.m.Ns, fr.m.Ar} {
+				for _, r := range sec {
+					maxRec = max(maxRec, len(r.Name)+10+len(r.Data))
+				}
+			}
+			if m.Has(refdns.BitTC) && !fr.m.Has(refdns.BitTC) && !sr.tc && fr.size+maxRec+32 < sizeLimit(v) {
 				h.S.Fail("C07", "hit-differs-from-first-relay", "%s: cached response is truncated (%d bytes, limit %d) although the first relay of that answer was complete in %d bytes: %s vs %s", name, len(d.raw), sizeLimit(v), fr.size, summarize(m), summarize(fr.m))
 			}
 			// only comparable when neither was truncated for its transport
